@@ -14,7 +14,7 @@ prop("C04", ["contracts.c04_codec"],
      bounded=[("bounded.codec", "strings_and_reals")],
      not_decided=["IEEE-754 values of REAL32/REAL64 and the ASCII / UTF-16-LE codecs are CPython's struct/codecs (only the table entry and the wrong-length rejection are proved)"])
 
-prop("C05", ["contracts.c04_codec", "contracts.c05_pdovar", "contracts.c15_pdo"], ["PdoGet", "PdoSet", "VarLen", "PdoOnMessage", "PdoDataSize"],
+prop("C05", ["contracts.c04_codec", "contracts.c05_pdovar", "contracts.c15_pdo"], ["PdoGet", "PdoSet", "VarLen", "PdoOnMessage", "PdoDataSize", "PdoNeighbours", "PdoAddVariable"],
      not_decided=["REAL32/REAL64 mapped at unaligned offsets (float kind is opaque to the engine)"])
 
 prop("C16", ["contracts.c16_emcy"], ["OnEmcy", "EmcyReset", "EmcyResetThenFrames", "EmcyAddCallback", "EmcySend", "EmcyGetDesc", "EmcyWait"],
@@ -100,8 +100,9 @@ prop("C12", ["contracts.c01_client", "contracts.c12_blockdown"], ["BdInit", "BdS
      assumed=["SdoClient request_response / read_response / send_request / abort as seen by the stream (env/blockclient.py)",
               "binascii.crc_hqx is a byte-wise fold (uninterpreted step function); the CRC-16 polynomial is CPython's",
               "_retransmit is contracted for sub-blocks of 3 and 5 full segments with every acknowledged count (enumerated)"],
-     not_decided=["the end-to-end claim (a conformant block server commits exactly the payload for every payload and block-size "
-                  "sequence, single loss repaired) is only covered by the bounded stand-in against a reference server",
+     not_decided=["the undisturbed end-to-end claim is proved by BlockDownloadTheorem against the conformant server model "
+                  "env/blockserver.py (declared size); the single-loss repair end to end is only covered per function (BdRetransmit) and "
+                  "by the bounded stand-in against a reference server",
                   "arbitrary multi-loss patterns; liveness of retransmission; termination of the mutual recursion write/send/_block_ack/_retransmit"])
 
 prop("C13", ["contracts.c01_client", "contracts.c12_blockdown", "contracts.c13_blockup"],
@@ -168,3 +169,5 @@ for _p in ("C02", "C03"):
     PROPS[_p]["contracts"] += ["ServerUploadTheorem", "ServerDownloadTheorem"]
 PROPS["C13"]["modules"].append("contracts.l13_blockupload")
 PROPS["C13"]["contracts"].append("BlockUploadTheorem")
+PROPS["C12"]["modules"].append("contracts.l12_blockdownload")
+PROPS["C12"]["contracts"].append("BlockDownloadTheorem")
